@@ -265,7 +265,16 @@ def _run_peer(world, plan):
             if pump is not None:
                 state['pump'] = loop.create_task(pump())
         else:
+            provider_delay = cfg.get('provider_delay')
+
             async def provider():
+                if provider_delay is not None:
+                    world.rec('tr', ep=role, what='provider_suspended')
+                    if provider_delay[0] == 'hops':
+                        for _ in range(provider_delay[1]):
+                            await asyncio.sleep(0)
+                    else:
+                        await asyncio.sleep(provider_delay[1])
                 yield transport
 
             ep = RSocketClient(provider(), **kw)
